@@ -738,7 +738,21 @@ func Neg(a *Term) *Term {
 
 // umax returns an upper bound of the unsigned value of t (cheap syntactic
 // interval analysis used to decide comparisons without the solver).
+// knownUB: upper bounds of specific terms established by unconditional
+// assumptions (vAssume(x <= c), lengths of nondet strings).
+var knownUB = map[int]uint64{}
+
+func setKnownUB(t *Term, ub uint64) {
+	if old, ok := knownUB[t.id]; !ok || ub < old {
+		knownUB[t.id] = ub
+		t.umOK = false
+	}
+}
+
 func umax(t *Term) uint64 {
+	if ub, ok := knownUB[t.id]; ok {
+		return ub
+	}
 	if t.umOK {
 		return t.um
 	}
@@ -761,7 +775,8 @@ func umax0(t *Term) uint64 {
 		if c.op == ONot {
 			c, neg = c.args[0], true
 		}
-		if (c.op == OUlt || c.op == OSlt || c.op == OUle || c.op == OSle) && a < 1<<62 && b < 1<<62 {
+		signedCmp := c.op == OSlt || c.op == OSle
+		if (c.op == OUlt || c.op == OUle) || (signedCmp && a < 1<<62 && b < 1<<62) {
 			x, y := t.args[1], t.args[2]
 			if neg {
 				x, y = y, x // ite(!(p<q), x, y) = ite(p<q, y, x) up to equality, which does not matter for min/max
@@ -1420,4 +1435,40 @@ func simplifyUnder(t *Term, lits map[int]bool, budget int) *Term {
 		return r
 	}
 	return rec(t, 0)
+}
+
+// debugStr renders a term as an s-expression, truncated by depth.
+func debugStr(t *Term, depth int) string {
+	switch t.op {
+	case OConst:
+		if t.sort.K == SBool {
+			return constStr(t)
+		}
+		return fmt.Sprintf("%d", t.val)
+	case OVar, OBound:
+		return t.name
+	}
+	if depth == 0 {
+		return fmt.Sprintf("t%d", t.id)
+	}
+	var ss []string
+	for _, a := range t.args {
+		ss = append(ss, debugStr(a, depth-1))
+	}
+	n := opName[t.op]
+	switch t.op {
+	case OExtract:
+		n = fmt.Sprintf("extract[%d:%d]", t.hi, t.lo)
+	case OZext:
+		n = "zext"
+	case OSext:
+		n = "sext"
+	case OApply:
+		n = t.name
+	case OConstArr:
+		n = "constarr"
+	case OLambda:
+		n = "lambda"
+	}
+	return "(" + n + " " + strings.Join(ss, " ") + ")"
 }
